@@ -31,8 +31,19 @@ class Unit:
             i = c.index('std::ostream& operator <<( std::ostream& os, const ArgumentKey& ak)')
             j = c.index('} // namespace detail')
             return c[:i] + c[j:]
+        def pre_su(t):
+            # slice of string_util.hpp: the two predicates startsWith()/endsWith() as they stand (argument_key.cpp includes the header;
+            # a key comparison may be built on them); the editing helpers and split2() (`-> decltype( auto)`) are outside the front end
+            out = ['#pragma once\n#include <string>\nnamespace celma { namespace common {\n']
+            for fn in ('startsWith', 'endsWith'):
+                m = re.search(r'^inline bool %s\(.*?^\} // %s\n' % (fn, fn), t, flags=re.M | re.S)
+                if not m:
+                    raise Undecided('extraction: string_util.hpp: %s() not found' % fn)
+                out.append(m.group(0))
+            return ''.join(out) + '}}\n'
+        sh.extract('celma/common/string_util.hpp', [], pre=pre_su)
+        sh.dropped += ['string_util.hpp: ensure_last, remove_to_if*, split2 (not used by the key code)']
         sh.extract('library/prog_args/detail/argument_key.cpp', [
-            Rule('drop-string_util', r'#include "celma/common/string_util.hpp"\n', '', 1),
             Rule('R-ANON', r'^namespace \{$', 'namespace cv_anon {} using namespace cv_anon; namespace cv_anon {', 1),
             Rule('R-THROW', THROW_RX, 'CV_THROW( 1);', 10, flags=re.M | re.S),
             Rule('R-AUTO-comma', r'const auto  comma_pos', 'const size_t  comma_pos', 1)], pre=pre_k)
